@@ -166,12 +166,9 @@ func countNodes(v interface{}) int {
 func hasMalformedType(v interface{}) bool {
 	switch x := v.(type) {
 	case astjson.M:
-		if k, _ := x["k"].(string); k == "List" || k == "NonNull" {
-			if x["t"] == nil {
-				return true
-			}
-		}
-		if _, isVar := x["vl"]; isVar && x["t"] == nil {
+		// every "t" member is a type reference that the grammar makes mandatory (list / non-null element type,
+		// variable, field, input value and operation type definitions); nil means parseType let a malformed one through
+		if t, has := x["t"]; has && t == nil {
 			return true
 		}
 		for _, e := range x {
